@@ -211,6 +211,10 @@ def run(ctx):
             j = rng.randrange(1, k)
             times[j] = times[j - 1]
         amps = [rng.uniform(-1, 4) for _ in range(k)] if rng.random() < 0.5 else [rng.uniform(-4, 4) for _ in range(k)]
+        if rng.random() < 0.4:
+            # a few amplitude *values* that recur (on / off / on again with the very same current)
+            pool = [rng.uniform(1.0, 4.0), rng.uniform(-1.0, 0.5)] + ([rng.uniform(-4, 4)] if rng.random() < 0.5 else [])
+            amps = [pool[j % 2] if rng.random() < 0.7 else rng.choice(pool) for j in range(k)]
         duration = rng.choice([0.05, 0.1, rng.uniform(0.02, 0.12)])
         dts = [0.001, 0.013, 0.03, 0.2, duration / 7]
         case = {"op": "lif_events", "tau": p.tau, "r": p.r, "v_leak": p.v_leak, "v_threshold": p.v_threshold,
@@ -295,8 +299,10 @@ def run(ctx):
             ctx.count("cuba_integer_threshold")
         elif rng.random() < 0.2:
             vth = vth.astype(np.float32)
+        # the input weight as *given* (array, or a scalar standing for all neurons) is what the documented update uses
+        w_given = g.uniform(-2, 2, nn) if rng.random() < 0.6 else float(rng.choice([0.5, -1.5, 0.25, 1.75]))
         node = nir.CubaLIF(tau_syn=g.uniform(1e-3, 0.1, nn), tau_mem=g.uniform(1e-3, 0.1, nn), r=g.uniform(-2, 2, nn),
-                           v_leak=g.uniform(-1, 1, nn), v_threshold=vth, w_in=g.uniform(-2, 2, nn))
+                           v_leak=g.uniform(-1, 1, nn), v_threshold=vth, w_in=w_given)
         dt = 10 ** rng.uniform(-4, -2)
         m = cuba.CubaLIFImplementation(dt, node)
         I = np.zeros(nn); v = np.zeros(nn)
@@ -305,7 +311,7 @@ def run(ctx):
         for step in range(rng.randrange(1, 30)):
             x = (g.random(nn) < 0.4).astype(float) * g.uniform(0.5, 5)
             z, vo, Io = m.forward(x)
-            I_new = I + dt * (-I + node.w_in * x) / node.tau_syn
+            I_new = I + dt * (-I + w_given * x) / node.tau_syn
             v_new = v + dt * ((node.v_leak - v) + node.r * I) / node.tau_mem
             z_want = v_new > node.v_threshold
             v_new = np.where(z_want, v_new - node.v_threshold, v_new)
